@@ -64,6 +64,8 @@ class Harness:
         self.services = {}  # strong refs to service instances
         self.accept_go = threading.Event()
         self.accept_done = threading.Event()
+        self.reaccept_go = threading.Event()
+        self.reaccept_done = threading.Event()
         self.helpers = []
         self.exec_seq = 0
         from cobald.daemon.runners.service import ServiceRunner
@@ -140,14 +142,37 @@ class Harness:
 
         cleanup, shielded = spec.get("cleanup", 0), spec.get("shielded", 0)
         was_cancelled = []
+        swallow = [spec.get("swallow", 0)]
+        late_adopt = spec.get("adopt_in_cleanup")
+
+        if spec.get("immediate"):
+            # not a coroutine function: CALLING the payload already ends it (raises / returns)
+            def payload(*args, **kwargs):
+                if flavour == "threading":
+                    hooks.name_thread("pth:" + pid)
+                started(args, kwargs)
+                return finish(spec["immediate"])
+            payload.__name__ = payload.__qualname__ = "payload_" + pid
+            return payload, exp_args, exp_kwargs
 
         if flavour == "asyncio":
+            async def wait_cmd():
+                while not g["cmds"]:
+                    try:
+                        await asyncio.sleep(0 if spec.get("spin") else h.poll)
+                    except asyncio.CancelledError:
+                        # a payload that swallows its first cancellation(s), e.g. a retry loop
+                        if swallow[0] > 0:
+                            swallow[0] -= 1
+                            hooks.emit("p.cancel.swallowed", p=pid)
+                            continue
+                        raise
+
             async def payload(*args, **kwargs):
                 started(args, kwargs)
                 try:
                     while True:
-                        while not g["cmds"]:
-                            await asyncio.sleep(0 if spec.get("spin") else h.poll)
+                        await wait_cmd()
                         cmd = g["cmds"].popleft()
                         r = do(cmd)
                         if r[0] == "end":
@@ -158,6 +183,8 @@ class Harness:
                     was_cancelled.append(1)
                     raise
                 finally:
+                    if late_adopt and was_cancelled:
+                        h.do_adopt(late_adopt, "cleanup:" + pid)
                     if cleanup and was_cancelled:
                         for _ in range(cleanup):
                             hooks.emit("p.cleanup.step", p=pid)
@@ -179,6 +206,8 @@ class Harness:
                     was_cancelled.append(1)
                     raise
                 finally:
+                    if late_adopt and was_cancelled:
+                        h.do_adopt(late_adopt, "cleanup:" + pid)
                     if (cleanup or shielded) and was_cancelled:
                         for _ in range(cleanup):
                             hooks.emit("p.cleanup.step", p=pid)
@@ -309,6 +338,19 @@ class Harness:
         else:
             hooks.emit("accept.ret", r=1, outcome="returned", exc="", cause_p="", cause_kind="")
         self.accept_done.set()
+        if self.scn.get("reaccept"):
+            self.reaccept_go.wait(10.0)
+            if self.reaccept_go.is_set():
+                self.nrunner = getattr(self, "nrunner", 1) + 1
+                rn = self.nrunner
+                hooks.emit("accept.call", r=rn, same_instance=True)
+                try:
+                    self.runtime.accept()
+                except BaseException as e:  # noqa
+                    hooks.emit("accept.ret", r=rn, outcome="raised", exc=type(e).__name__, cause_p="", cause_kind="")
+                else:
+                    hooks.emit("accept.ret", r=rn, outcome="returned", exc="", cause_p="", cause_kind="")
+                self.reaccept_done.set()
 
     def describe_exception(self, e):
         """outcome of accept(): type, and what its cause (looking through groups) is"""
@@ -362,7 +404,7 @@ class Harness:
         scn = self.scn
         for op in scn["script"]:
             o = op["op"]
-            if self.accept_done.is_set() and o in ("adopt", "execute", "new_service", "step", "seg", "end", "block", "wait_start", "shutdown", "sigint", "polls"):
+            if self.accept_done.is_set() and o in ("adopt", "execute", "new_service", "step", "seg", "end", "block", "wait_start", "sigint", "polls"):
                 # the runtime has ended: the rest of the behaviour cannot be played any more
                 hooks.emit("skipped", op=o)
                 continue
@@ -424,6 +466,17 @@ class Harness:
                         hooks.emit("accept.ret", r=rn, outcome="returned", exc="", cause_p="", cause_kind="")
                 t = self.helper(acc2, "accept2")
                 t.join(op.get("timeout", 1.0))
+            elif o == "reaccept":
+                self.reaccept_go.set()
+                time.sleep(op.get("ms", 150) / 1000.0)
+                hooks.emit("shutdown2.call")
+                try:
+                    self.runtime.shutdown()
+                except BaseException as e:  # noqa
+                    hooks.emit("shutdown2.ret", ok=False, exc=type(e).__name__)
+                else:
+                    hooks.emit("shutdown2.ret", ok=True, exc="")
+                self.reaccept_done.wait(4.0)
             elif o == "shutdown2":
                 if self.runtime2 is not None:
                     hooks.emit("shutdown2.call")
